@@ -136,8 +136,35 @@ impl Ctx {
                 (Ok(Ok(x)), Ok(Ok(y))) => x.strict == y.strict,
                 _ => false,
             },
+            "cut-agrees" => self.layouts_agree(a, b).is_none(),
             _ => matches!(cut_parser(a), Cut::Ok) == matches!(cut_parser(b), Cut::Ok),
         }
+    }
+
+    /// Two layouts of one text that differ in trivia only: same classification (parses /
+    /// indentation error / other error), and if both parse the same strict Ast and behaviour.
+    /// Returns a description of the difference.
+    fn layouts_agree(&mut self, a: &str, b: &str) -> Option<String> {
+        let (ca, cb) = (cut_parser(a), cut_parser(b));
+        self.checked += 1;
+        if cut_tag(&ca) != cut_tag(&cb) {
+            return Some(format!("classification differs: {:?} vs {:?}", ca, cb));
+        }
+        if matches!(ca, Cut::Ok) {
+            match (parse_real(a), parse_real(b)) {
+                (Ok(Ok(x)), Ok(Ok(y))) => {
+                    if x.strict != y.strict {
+                        return Some("strict Ast differs".into());
+                    }
+                }
+                _ => return Some("parse outcome differs".into()),
+            }
+            let (ba, bb) = (behaviour(a), behaviour(b));
+            if ba != bb {
+                return Some(format!("behaviour differs: {} vs {}", ba, bb));
+            }
+        }
+        None
     }
 
     /// corpus files: `<base>\n=====\n<variant>` pairs that must agree in strict Ast and behaviour,
@@ -150,6 +177,17 @@ impl Ctx {
             let Ok(s) = std::fs::read_to_string(&p) else { continue };
             let name = p.file_name().unwrap().to_string_lossy().to_string();
             self.rep.bump("corpus_files");
+            if let (true, Some((a, b))) = (name.contains("agree"), s.split_once("\n=====\n")) {
+                // trivia-only pairs that must be classified alike (also when both are rejected)
+                self.pairs += 1;
+                self.rep.case(&s, true);
+                if let Some(d) = self.layouts_agree(a, b) {
+                    self.fail("D", "C10:corpus:layouts-disagree", json!({"file": name, "input": a, "variant": b, "difference": d}));
+                }
+                self.trace_k(a, "corpus");
+                self.trace_k(b, "corpus");
+                continue;
+            }
             if let Some((a, b)) = s.split_once("\n=====\n") {
                 let erased = name.contains("sugar");
                 self.pairs += 1;
@@ -409,11 +447,245 @@ impl Ctx {
                 }
             }
         }
+        self.indent_read_scan(&src);
         self.checked += (lexer_uses + cur_uses) as u64;
         self.rep.bump_by("interface_check:lexer_uses", lexer_uses as u64);
         self.rep.bump_by("interface_check:current_token_uses", cur_uses as u64);
         if lexer_uses < 6 {
             self.fail("K", "K:C10:cursor-interface", json!({"input": path, "note": "fewer lexer uses found than primitives exist: the source shape changed, the check is stale"}));
+        }
+    }
+}
+
+// ---- structural tie: where the parser reads current_indent() ----------------------------------------
+//
+// `current_indent()` on a skipped-trivia position (directly after consume_until_*) is NOT invariant
+// under trivia edits (Props/C10.lean `current_indent_pre_not_invariant`, defect F-C10-1, repaired in
+// /repo 5f1b75a). Re-checked on every run:
+//  (a) no `current_indent()` between a `consume_until_token_with_context(` /
+//      `consume_until_next_token_on_same_line(` call and the next consuming call of the same function;
+//  (b) the functions that read `current_indent()` before they consume anything are exactly the
+//      reviewed set below (each is entered on a significant token, or its value cannot matter).
+
+const PRIMITIVE_FNS: &[&str] = &[
+    "consume_token", "peek_token", "peek_token_n", "current_line", "current_indent", "peek_span", "current_span",
+    "peek_token_with_context", "consume_token_with_context", "consume_until_token_with_context",
+    "peek_next_token_on_same_line", "peek_next_token_on_same_line_with_span",
+    "consume_until_next_token_on_same_line", "consume_next_token_on_same_line",
+];
+
+/// reviewed at /repo 5f1b75a
+const ENTRY_INDENT_READERS: &[(&str, &str)] = &[
+    ("parse_indented_block", "entered after the header's last token / `then` / `else` / `:` / `|` was consumed (significant token)"),
+    ("parse_expression_continued", "entered after parse_term, which consumes at least one significant token"),
+    ("parse_term", "reachable on a skipped-trivia position (parse_line after consume_until_*), but start_indent is only used as `peeked.info.indent > start_indent` for a `@` key: there the next token is on the cursor's line, so its indent is 0 (cursor on a NewLine) or equals the cursor's (cursor on whitespace/comment) and the comparison is false on both sides of any trivia edit"),
+    ("parse_parenthesized_args", "entered after `(` was consumed with consume_token"),
+    ("consume_map_block", "entered after the first key was parsed (significant token)"),
+];
+
+fn is_consuming_call(l: &str) -> bool {
+    let t = l.trim_start();
+    if t.starts_with("//") {
+        return false;
+    }
+    for pat in ["self.consume_", ".consume_", "self.parse_", ".parse_", "self.expect_and_consume", "self.check_for_chain"] {
+        if let Some(p) = t.find(pat) {
+            // `self.current_…`, `peek_…` are not consuming; `consume_until_*` leaves the cursor on trivia
+            let rest = &t[p..];
+            if !rest.contains("consume_until_token_with_context") && !rest.contains("consume_until_next_token_on_same_line") {
+                return true;
+            }
+        }
+    }
+    false
+}
+
+impl Ctx {
+    fn indent_read_scan(&mut self, src: &str) {
+        // split into functions (up to the hook module)
+        let mut funcs: Vec<(String, Vec<(usize, &str)>)> = vec![];
+        for (n, line) in src.lines().enumerate() {
+            let t = line.trim_start();
+            if t.starts_with("pub mod verif") {
+                break;
+            }
+            if let Some(rest) = t.strip_prefix("fn ").or_else(|| t.strip_prefix("pub fn ")) {
+                let name: String = rest.chars().take_while(|c| c.is_alphanumeric() || *c == '_').collect();
+                funcs.push((name, vec![]));
+            }
+            if let Some(f) = funcs.last_mut() {
+                f.1.push((n + 1, line));
+            }
+        }
+        let mut until_sites = 0u64;
+        let mut entry_readers: Vec<(String, usize)> = vec![];
+        for (name, lines) in &funcs {
+            if PRIMITIVE_FNS.contains(&name.as_str()) {
+                continue;
+            }
+            // (a)
+            for (i, (n, l)) in lines.iter().enumerate() {
+                let t = l.trim_start();
+                if t.starts_with("//") {
+                    continue;
+                }
+                let Some(pos) = l.find("consume_until_token_with_context(").or_else(|| l.find("consume_until_next_token_on_same_line(")) else { continue };
+                until_sites += 1;
+                let mut j = i;
+                while j < lines.len() && j - i <= 12 {
+                    let (n2, l2) = lines[j];
+                    let seg = if j == i { &l2[pos..] } else { l2 };
+                    if seg.contains("current_indent()") && !l2.trim_start().starts_with("//") {
+                        self.fail(
+                            "K",
+                            "K:C10:current_indent-after-consume_until",
+                            json!({"input": l2.trim(), "line": n2, "function": name, "consume_until_at_line": n,
+                                   "note": "current_indent() is read on the skipped-trivia position directly after consume_until_*: not invariant under trivia edits (Props/C10.lean current_indent_pre_not_invariant; the defect class of F-C10-1)"}),
+                        );
+                    }
+                    if j > i && is_consuming_call(l2) {
+                        break;
+                    }
+                    j += 1;
+                }
+            }
+            // (b)
+            for (n, l) in lines.iter().skip(1) {
+                if l.trim_start().starts_with("//") {
+                    continue;
+                }
+                if l.contains("current_indent()") {
+                    entry_readers.push((name.clone(), *n));
+                    break;
+                }
+                if is_consuming_call(l) || l.contains("consume_until_") {
+                    break;
+                }
+            }
+        }
+        self.rep.bump_by("interface_check:consume_until_call_sites", until_sites);
+        self.rep.bump_by("interface_check:entry_indent_readers", entry_readers.len() as u64);
+        self.checked += until_sites + entry_readers.len() as u64;
+        for (f, n) in &entry_readers {
+            if !ENTRY_INDENT_READERS.iter().any(|(g, _)| g == f) {
+                self.fail(
+                    "K",
+                    "K:C10:current_indent-at-function-entry",
+                    json!({"input": f, "line": n,
+                           "note": "a function outside the reviewed set reads current_indent() before consuming a token; if it can be entered directly after consume_until_* this is the defect class of F-C10-1 — review and extend ENTRY_INDENT_READERS with the justification"}),
+                );
+            }
+        }
+        if until_sites < 10 {
+            self.fail("K", "K:C10:cursor-interface", json!({"input": "parser.rs", "note": "fewer consume_until_* call sites found than exist at review time: the source shape changed, the scan is stale"}));
+        }
+        self.rep.extra.insert(
+            "entry_indent_readers_reviewed".into(),
+            json!(ENTRY_INDENT_READERS.iter().map(|(f, why)| format!("{}: {}", f, why)).collect::<Vec<_>>()),
+        );
+    }
+
+    // ---- arm-indent stream: the shape of F-C10-1 (fixed in 5f1b75a), generated rather than filtered ----
+    //
+    // match / switch whose first arm is at column 0, less indented than, level with, or deeper than
+    // its header — with and without trivia lines (any indentation) before the first arm and between
+    // arms. Valid or not, a text and its trivia variants must be classified alike; when accepted,
+    // the strict Ast and the behaviour must be identical.
+    fn arm_indent_stream(&mut self, rng: &mut Rng, n: usize) {
+        for i in 0..n {
+            let in_func = rng.chance(1, 2);
+            let nested = in_func && rng.chance(1, 2);
+            let hind: usize = if nested { 4 } else if in_func { 2 } else { 0 };
+            let arm_ind = *rng.pick(&[0usize, 0, hind.saturating_sub(2), hind, hind + 1, hind + 2, hind + 4]);
+            let is_match = rng.chance(1, 2);
+            let assign = rng.chance(1, 2);
+            let k = rng.below(4);
+            let mut lines: Vec<String> = vec![];
+            if in_func {
+                lines.push("f = |n|".into());
+                if nested {
+                    lines.push("  if n >= 0".into());
+                }
+            } else {
+                lines.push(format!("n = {}", k));
+            }
+            let pad = " ".repeat(hind);
+            let head = match (is_match, assign) {
+                (true, true) => "z = match n % 3",
+                (true, false) => "match n % 3",
+                (false, true) => "z = switch",
+                (false, false) => "switch",
+            };
+            lines.push(format!("{}{}", pad, head));
+            let header_at = lines.len();
+            let ap = " ".repeat(arm_ind);
+            let narms = 1 + rng.below(3);
+            for a in 0..narms {
+                if is_match {
+                    lines.push(format!("{}{} then print {}", ap, a, a + 10));
+                } else {
+                    lines.push(format!("{}n == {} then print {}", ap, a, a + 10));
+                }
+            }
+            if rng.chance(1, 2) {
+                lines.push(format!("{}else print 99", ap));
+            }
+            if assign {
+                lines.push(format!("{}print z", pad));
+            }
+            if in_func {
+                lines.push(format!("print f {}", k));
+            }
+            let base = lines.join("\n") + "\n";
+            let base_cut = cut_parser(&base);
+            self.rep.case(&format!("arm-indent:{}", base), true);
+            let rel = if arm_ind == 0 && hind > 0 { "column0" } else if arm_ind < hind { "less" } else if arm_ind == hind { if hind == 0 { "column0" } else { "level" } } else { "deeper" };
+            *self.cut_stats.entry(format!("arm-indent:{}:{}", rel, cut_tag(&base_cut))).or_insert(0) += 1;
+            if arm_ind > hind && !matches!(base_cut, Cut::Ok) {
+                self.fail("D", "C10:arm-indent:valid-layout-rejected", json!({"input": base, "observed": format!("{:?}", base_cut)}));
+            }
+            if i % 4 == 0 {
+                self.trace_k(&base, "arm-indent");
+            }
+            for _ in 0..4 {
+                let mut v: Vec<String> = vec![];
+                for (li, l) in lines.iter().enumerate() {
+                    let mut l2 = l.clone();
+                    match rng.below(5) {
+                        0 => l2.push_str("  "),
+                        1 => l2.push_str(" # c"),
+                        2 => l2.push_str(" #- c -#"),
+                        _ => {}
+                    }
+                    v.push(l2);
+                    // trivia lines: always a chance directly before the first arm, sometimes elsewhere
+                    let here = if li + 1 == header_at { rng.chance(4, 5) } else { rng.chance(1, 5) };
+                    if here {
+                        for _ in 0..1 + rng.below(2) {
+                            let ti = " ".repeat(*rng.pick(&[0usize, 1, 2, 3, 4, 6, 8]));
+                            v.push(match rng.below(5) {
+                                0 => String::new(),
+                                1 => ti,
+                                2 => format!("{}# c", ti),
+                                3 => format!("{}#- c -#", ti),
+                                _ => format!("{}#- c\n d\n{}-#", ti, ti),
+                            });
+                        }
+                    }
+                }
+                let var = v.join("\n") + "\n";
+                self.pairs += 1;
+                self.rep.bump("variant=arm-indent-trivia");
+                self.rep.case(&format!("arm-indent:{}", var), true);
+                if let Some(d) = self.layouts_agree(&base, &var) {
+                    self.fail(
+                        "D",
+                        "C10:arm-indent:trivia-changes-outcome",
+                        json!({"input": var, "base": base, "arm_indent": arm_ind, "header_indent": hind, "difference": d,
+                               "note": "a match/switch and its trivia-only variant are classified differently (shape of F-C10-1, fixed in 5f1b75a)"}),
+                    );
+                }
+            }
         }
     }
 }
